@@ -27,6 +27,7 @@ def dims_equal(a, b):
 
 
 _probe_counter = itertools.count()
+_MISS = object()
 
 
 def fresh_syms(n, tag='q'):
@@ -81,8 +82,9 @@ class FnState:
     def get(self, idx):
         k = (self.uid, tuple(i.key() if isinstance(i, IExpr) else i for i in idx))
         m = CTX.memo
-        if k in m:
-            return m[k]
+        v = m.get(k, _MISS)
+        if v is not _MISS:
+            return v
         v = self.fn(idx)
         m[k] = v
         return v
@@ -103,8 +105,9 @@ class StoreState:
     def get(self, idx):
         k = (self.uid, tuple(i.key() if isinstance(i, IExpr) else i for i in idx))
         m = CTX.memo
-        if k in m:
-            return m[k]
+        v = m.get(k, _MISS)
+        if v is not _MISS:
+            return v
         ok, mask, payload = self.cond_fn(idx)
         if not ok:
             v = self.parent.get(idx)
@@ -293,6 +296,8 @@ class Block:
         return iprod(self.shape)
 
     def squeezed(self):
+        if self.scalar:
+            return self
         keep = [j for j, s in enumerate(self.shape) if not is_lit(s, 1)]
         shape = tuple(self.shape[j] for j in keep)
         f = self.fn
@@ -631,35 +636,61 @@ class SymNDArray:
 
     def _adv_set(self, k, value):
         v = self._view
-        if self.ndim == 1 and len(k) == 1 and isinstance(k[0], SymNDArray) and k[0].blocks is not None \
-                and k[0].buf.state is None:
-            keyblocks = [Block(b.shape, (lambda p, b=b: v.fwd((b.fn(p),))), 'int') for b in k[0].blocks]
+        key0 = k[0] if len(k) == 1 else None
+        if self.ndim == 1 and isinstance(key0, SymNDArray) and key0.blocks is not None:
+            # key with block structure (raveled cell-number arrays, hstack of pieces)
+            keyblocks = [Block(b.shape, (lambda p, b=b: v.fwd((I(b.fn(p if not b.scalar else ())),))), 'int')
+                         for b in key0.blocks]
             bshape = None
+        elif self.ndim == 1 and isinstance(key0, SymNDArray) and key0.ndim == 1 and key0.affine is None \
+                and _small_const(key0.shape):
+            # a short enumerated index list (e.g. corner cells): one scalar key per element
+            n = I(key0.shape[0]).const_value()
+            vals = [I(key0.at((j,))) for j in range(n)]
+            keyblocks = [Block((), (lambda p, c=c: v.fwd((c,))), 'int') for c in vals]
+            bshape = None
+            if isinstance(value, SymNDArray):
+                value = make_blocks_array([Block((), (lambda p, j=j, sn=value.snap(), nd=value.ndim:
+                                                      sn((I(j),) if nd == 1 else ())), value.kind) for j in range(n)])
         else:
             items, bshape = _adv_items(self, k)
             keyblocks = [Block(bshape, (lambda p: v.fwd(tuple(it(p) for it in items))), 'int')]
-        affkey = (bshape is not None and self.ndim == 1 and isinstance(k[0], SymNDArray)
-                  and k[0].affine is not None and k[0].ndim == 1 and v.is_identity_of(self.buf.shape))
-        if affkey and isinstance(value, SymNDArray) and value.blocks is not None and value.buf.state is None \
-                and len(value.blocks) == 1 and len(value.blocks[0].squeezed().shape) > 1:
-            # a raveled multi-dimensional piece written into a consecutive segment: kept structurally only
-            blk = value.blocks[0]
-            if not dims_equal(blk.size, iprod(bshape)):
+        affkey = (bshape is not None and self.ndim == 1 and isinstance(key0, SymNDArray)
+                  and key0.affine is not None and key0.ndim == 1 and v.is_identity_of(self.buf.shape))
+        if affkey and isinstance(value, SymNDArray) and value.blocks is not None and \
+                (len(value.blocks) > 1 or len(value.blocks[0].squeezed().shape) > 1):
+            # pieces written into consecutive segments: kept structurally; multi-dimensional pieces cannot be read
+            # element by element through a flat index
+            total = IExpr.const(0)
+            for blk in value.blocks:
+                total = total + blk.size
+            if not dims_equal(total, iprod(bshape)):
                 raise ValueError('shape mismatch: value array could not be broadcast to indexing result')
-            start, n = k[0].affine, iprod(bshape)
-            self.buf.segments.append((start, n, blk))
+            start = key0.affine
+            kind = self.kind
+            for blk in value.blocks:
+                n = blk.size
+                self.buf.segments.append((start, n, blk))
+                flat = len(blk.squeezed().shape) <= 1
+                sq = blk.squeezed()
 
-            def cond_fn(bufidx, start=start, n=n):
-                t = I(bufidx[0]) - start
-                if CTX.decide(t >= 0) and CTX.decide(t < n):
-                    raise OutOfReach('element read inside a raveled multi-dimensional segment')
-                return False, None, None
-            self.buf.write(cond_fn, None, 'setitem-adv')
+                def cond_fn(bufidx, start=start, n=n):
+                    t = I(bufidx[0]) - start
+                    if CTX.decide(t >= 0) and CTX.decide(t < n):
+                        return True, None, t
+                    return False, None, None
+
+                def val_fn(bufidx, t, sq=sq, flat=flat, kind=kind):
+                    if not flat:
+                        raise OutOfReach('element read inside a raveled multi-dimensional segment')
+                    return to_value(sq.fn(() if (sq.scalar or len(sq.shape) == 0) else (t,)), kind)
+                self.buf.write(cond_fn, val_fn, 'setitem-adv')
+                start = start + n
             self._after_write()
             return
         vblocks = _value_blocks(value, keyblocks, self.kind)
         if affkey:
-            self.buf.segments.append((k[0].affine, iprod(bshape), vblocks[0]))
+            self.buf.segments.append((key0.affine, iprod(bshape), vblocks[0]))
         _scatter_write(self.buf, keyblocks, vblocks, self.kind)
         self._after_write()
 
@@ -1205,6 +1236,11 @@ def _adv_items(arr, k):
         else:
             getters.append(lambda idx, s0=it[1], t=pos_of_slice[j]: s0 + I(idx[t]))
     return getters, tuple(rshape)
+
+
+def _small_const(shape, limit=64):
+    p = iprod(shape)
+    return p.is_const() and p.const_value() <= limit
 
 
 def _value_blocks(value, keyblocks, kind):
